@@ -26,7 +26,7 @@ PLAN = {
     "thorough": {"shards": 16, "shard_timeout": 3600, "case_timeout": 240, "configs": 1200, "envs": 6, "max_case_timeouts": 20},
 }
 THRESHOLDS = {
-    "quick": {"configurations_compared": 35, "child_runs": 140, "set:environments": 6, "repr:tree": 4, "repr:ge": 4, "repr:sge": 4, "repr:dsge": 4, "repr:stack": 4, "alg:gp": 5, "alg:rs": 3, "alg:hc": 3, "alg:opo": 3, "gp_crossover_heavy:dsge": 2, "evaluations_traced": 2000, "distinct_programs_traced": 300},
+    "quick": {"configurations_compared": 35, "child_runs": 140, "set:environments": 6, "repr:tree": 4, "repr:ge": 4, "repr:sge": 4, "repr:dsge": 4, "repr:stack": 4, "alg:gp": 5, "alg:rs": 3, "alg:hc": 3, "alg:opo": 3, "gp_crossover_heavy:dsge": 2, "tracker:bare": 5, "tracker:with-recorder": 5, "evaluations_traced": 2000, "distinct_programs_traced": 300},
     "thorough": {"configurations_compared": 380, "child_runs": 2200, "set:environments": 30},
 }
 REPRS = ["tree", "ge", "sge", "dsge", "stack"]
@@ -45,7 +45,7 @@ def gen_cases(tier, seed):
         envs = []
         for e in range(PLAN[tier]["envs"]):
             envs.append({"hashseed": ["0", "1", "4242", "random"][e % 4] if e else "0", "malloc": rng.choice(["pymalloc", "malloc"]) if e else "pymalloc", "padding": [0, 1000, 50000, 7][e % 4], "import_perm": e * 7, "grammar_first": e % 2 == 1})
-        yield {"desc": desc, "repr": REPRS[i % 5], "decider": rng.choice(["maxdepth", "pigrow", "full", "progressive"]), "alg": ["gp", "rs", "gp", "hc", "gp", "opo"][(i // 5) % 6], "seed": rng.randrange(10**6), "budget": rng.choice([20, 30, 40]), "pop": rng.choice([3, 4, 6]), "extra_depth": rng.choice([2, 3, 4]), "step": rng.choice(["default", "cx", "cx"]), "envs": envs}
+        yield {"desc": desc, "repr": REPRS[i % 5], "decider": rng.choice(["maxdepth", "pigrow", "full", "progressive"]), "alg": ["gp", "rs", "gp", "hc", "gp", "opo"][(i // 5) % 6], "seed": rng.randrange(10**6), "budget": rng.choice([20, 30, 40]), "pop": rng.choice([3, 4, 6]), "extra_depth": rng.choice([2, 3, 4]), "step": rng.choice(["default", "cx", "cx"]), "tracker": rng.choice(["default", "default", "bare", "with-recorder"]), "envs": envs}
 
 
 def run_child(cfg, env):
@@ -88,7 +88,8 @@ def run_case(case, rec):
     rec.count("configurations_compared")
     rec.count(f"repr:{case['repr']}")
     rec.count(f"alg:{case['alg']}")
-    wit = {"grammar": case["desc"]["name"], "repr": case["repr"], "decider": case["decider"], "alg": case["alg"], "step": case.get("step"), "seed": case["seed"], "budget": case["budget"]}
+    rec.count(f"tracker:{case.get('tracker', 'default')}")
+    wit = {"grammar": case["desc"]["name"], "repr": case["repr"], "decider": case["decider"], "alg": case["alg"], "step": case.get("step"), "tracker": case.get("tracker"), "seed": case["seed"], "budget": case["budget"]}
     if case["alg"] == "gp" and case.get("step") == "cx":
         rec.count(f"gp_crossover_heavy:{case['repr']}")
     strs = "with-str-fields" if has_kind(case["desc"], "str") else "no-str-fields"
